@@ -13,6 +13,7 @@
 (*                    mappings: tap / hold are plain output keys),         *)
 (*             max  : dynamic-macro-max-presses,                           *)
 (*             recorded : BOOLEAN (replay delay behaviour),                *)
+(*             red  : rapid-event-delay (default 5),                       *)
 (*             gcap : cap of the recorded gaps (> T + Margin, or 0 when   *)
 (*                    no gap is ever read) ]                              *)
 (*                                                                         *)
@@ -73,8 +74,9 @@ MonInit(p) ==
     exp |-> <<>>,      \* expected OS events not yet seen: <<"o", ev>> in order | <<"s", set of release events>>
     replaying |-> FALSE, budget |-> 0,
     mode |-> "sync",   \* "sync" | "lost" (soft zone: wait for the next quiescent point)
-    und |-> 0,         \* ticks a tap-hold key may still be undecided (typed events do not drain meanwhile)
-    stall |-> 0,       \* ticks a tap-hold key may still keep kanata from being idle
+    behind |-> 0,      \* events typed while a tap-hold key may be undecided (they do not drain meanwhile)
+    stall |-> 0,       \* ticks a tap-hold key may still keep kanata from being idle (its first T + 2 ticks: the key
+                       \* may still be undecided and typed events do not drain)
     lateSeen |-> FALSE, \* a late control key was seen and kanata has not reported idle since: whether kanata is
                        \* recording is not determined by the input order
     lastIdle |-> TRUE, err |-> "" ]
@@ -93,6 +95,8 @@ SaveMac(m, id, evs, late) ==
   [m EXCEPT !.mac = MacPut(@, [id |-> id, evs |-> evs, rel |-> StillDown(evs), late |-> late]), !.lastSaved = id]
 NewRec(id) == [id |-> id, evs |-> <<>>, late |-> FALSE]
 DropLast(s, n) == SubSeq(s, 1, IF Len(s) > n THEN Len(s) - n ELSE 0)
+
+UndOf(m) == IF m.stall > m.p.red + 1 THEN m.stall - (m.p.red + 1) ELSE 0
 
 \* an input event arrives: what it does to the recording
 RecArrive(m0, isPress, c) ==
@@ -234,10 +238,11 @@ MonIn(m, r) ==
         \* when will this control key press have been processed?  One queued event per tick (a replayed
         \* event may be queued ahead); with time-sensitive keys only known when kanata was idle
         wait == IF m.lastIdle THEN 1
-                ELSE m.und + m.pend + 1 + (IF m.replaying \/ m.mode = "lost" THEN 1 ELSE 0)
+                ELSE UndOf(m) + OMax(m.pend, m.behind) + 1 + (IF m.replaying \/ m.mode = "lost" THEN 1 ELSE 0)
         th == ThOf(m.p, r.c)
-    IN [m3 EXCEPT !.und = IF th = <<>> THEN @ ELSE IF isPress THEN th[1].T + 2 ELSE OMin(@, 2),
-                  !.stall = IF th = <<>> THEN @ ELSE th[1].T + 2,
+    IN [m3 EXCEPT !.behind = IF th # <<>> THEN 1 ELSE IF UndOf(m) > 0 THEN OMin(@ + 1, 40) ELSE 0,
+                  \* a tap is released rapid-event-delay ticks after its press; a hold starts at T
+                  !.stall = IF th = <<>> THEN @ ELSE th[1].T + m.p.red + 3,
                   !.phys = IF isPress THEN @ \cup {r.c} ELSE @ \ {r.c},
                   !.pend = OMin(@ + 1, 40),
                   !.ctlp = IF isCtlPress THEN OMax(wait, m.ctlp) ELSE m.ctlp,
@@ -260,9 +265,8 @@ MonTick(m, out, idle, cb) ==
   ELSE
     LET o == Eff(out, m.down)
         \* (an idle report settles both bounds)
-        und == IF idle THEN 0 ELSE IF m.und > 0 THEN m.und - 1 ELSE 0
         stall == IF idle THEN 0 ELSE IF m.stall > 0 THEN m.stall - 1 ELSE 0
-        pend == IF m.und > 0 THEN m.pend ELSE IF m.pend > 0 THEN m.pend - 1 ELSE 0
+        pend == IF m.pend > 0 THEN m.pend - 1 ELSE 0
         ctlp == IF idle THEN 0 ELSE IF m.ctlp > 0 THEN m.ctlp - 1 ELSE 0
         \* an idle report settles whether kanata records: it does not
         lateSeen == m.lateSeen /\ ~idle
@@ -273,8 +277,9 @@ MonTick(m, out, idle, cb) ==
         budget == IF m.replaying /\ m.budget > 0 /\ (m.mode = "sync" \/ recOn) THEN m.budget - 1 ELSE m.budget
         \* the expected replay is over: kanata idle, or (recording) its full time budget has passed
         repDone == ~m.replaying \/ idle \/ (recOn /\ m.budget = 0)
-        calm == idle \/ (recOn /\ pend = 0 /\ und = 0 /\ stall = 0 /\ ctlp = 0 /\ repDone)
-        m1 == [RecTick([m EXCEPT !.rec = rec0]) EXCEPT !.down = o.down, !.pend = pend, !.und = und, !.stall = stall,
+        calm == idle \/ (recOn /\ pend = 0 /\ stall = 0 /\ ctlp = 0 /\ repDone)
+        m1 == [RecTick([m EXCEPT !.rec = rec0]) EXCEPT !.down = o.down, !.pend = pend, !.stall = stall,
+                                 !.behind = IF stall > m.p.red + 1 THEN @ ELSE 0,
                                  !.ctlp = ctlp, !.lateSeen = lateSeen, !.lastIdle = calm,
                                  !.replaying = ~repDone, !.budget = IF ~repDone THEN budget ELSE 0,
                                  !.repLate = @ /\ ~repDone]
